@@ -37,7 +37,7 @@ UNI_DATA = {'A': ('normal', 0.0, 1.0, 40), 'B': ('gamma2', 50.0, 10.0, 90), 'C1'
             'C2': ('const', -7.5, 5), 'C0': ('const', 0.0, 8), 'S': ('uniform', 0.0, 1.0, 5)}
 UNI_CONFIGS = [('beta',), ('gamma',), ('gaussian',), ('loglaplace',), ('student_t',), ('uniform',), ('truncated',),
                ('truncated', 'fixed-bounds'), ('kde', None, None, False), ('kde', 'silverman', None, False),
-               ('kde', None, 15, False), ('univariate', 'default'), ('univariate', 'parametric'),
+               ('kde', None, 15, False), ('kde', None, 15, False, 'seeded'), ('univariate', 'default'), ('univariate', 'parametric'),
                ('univariate', 'selection-sample')]
 BIV_DATA = {'pos': 0.4, 'strong': 0.8, 'neg': -0.5, 'tau0': 0.0}
 GM_DATA = {'T1': (3, 'mixed', 'rotated', (), 40, 'str'), 'T2': (2, 'equi+', 'normal', (), 90, 'int'),
@@ -84,6 +84,10 @@ def new_model(kind, cfg):
     if kind == 'uni':
         if cfg == ('truncated', 'fixed-bounds'):
             return U.TruncatedGaussian(minimum=-100.0, maximum=1000.0)
+        if cfg == ('kde', None, 15, False, 'seeded'):
+            # a model seed drives sample(), not fit(): the size-15 resample of fit comes from the global generator (seeded by
+            # do_fit), so a re-fitted seeded KDE equals a fresh seeded KDE
+            return U.GaussianKDE(sample_size=15, random_state=3)
         if cfg == ('univariate', 'selection-sample'):
             return U.Univariate(selection_sample_size=12, candidates=[U.GaussianUnivariate, U.UniformUnivariate,
                                                                       U.GammaUnivariate])
